@@ -439,6 +439,21 @@ func init() {
 		},
 		DriverOp: "c02.merge",
 	})
+	core.Register("c02.mergeSeq", &core.CheckDef{
+		Real: func(raw json.RawMessage) any {
+			var a struct{ A, B, C, D any }
+			json.Unmarshal(raw, &a)
+			base := map[string]any{"services": map[string]any{"s": map[string]any{"labels": core.DecodeVal(a.A), "extra_hosts": core.DecodeVal(a.C)}}}
+			over := map[string]any{"services": map[string]any{"s": map[string]any{"labels": core.DecodeVal(a.B), "extra_hosts": core.DecodeVal(a.D)}}}
+			m, err := override.Merge(base, over)
+			if err != nil {
+				return map[string]any{"err": err.Error()}
+			}
+			s := m["services"].(map[string]any)["s"].(map[string]any)
+			return map[string]any{"labels": core.EncodeVal(s["labels"]), "extra_hosts": core.EncodeVal(s["extra_hosts"])}
+		},
+		DriverOp: "c02.mergeSeq",
+	})
 	core.Register("c02.newGraph", &core.CheckDef{
 		Real: func(raw json.RawMessage) any {
 			var a c02GraphArgs
@@ -776,6 +791,20 @@ func runC02(ctx *core.Ctx) {
 		ctx.Add("c02.hosts", c02ValArgs{V: lv, Reps: 2})
 		ctx.Add("c02.mapping", c02ValArgs{V: lv})
 		ctx.Add("c02.mapping", c02ValArgs{V: lv, Kind: "mwe"})
+	}
+	seqArg := func() any {
+		switch ctx.Rng.Intn(6) {
+		case 0:
+			return core.EncodeVal(c02List(ctx, ctx.Rng.Intn(5)))
+		case 1:
+			return core.EncodeVal(c02Scalar(ctx))
+		default:
+			return core.EncodeVal(c02KVMap(ctx, ctx.Rng.Intn(5), true))
+		}
+	}
+	for i := 0; i < ctx.Pick(5000, 80000); i++ {
+		ctx.Count("mergeSeq-random")
+		ctx.Add("c02.mergeSeq", map[string]any{"a": seqArg(), "b": seqArg(), "c": seqArg(), "d": seqArg()})
 	}
 	for i := 0; i < ctx.Pick(6000, 100000); i++ {
 		ctx.Count("merge-random")
